@@ -87,6 +87,22 @@ class PresGen:
             elif shape == "newtype":
                 p = self.mk("newtype", fields=[Field(None, prim("u8"), as_=ft.rs())])
                 members["as"] = p
+            # variant-level `as`: the variant is what it would be if it held one field of type F
+            if r.random() < 0.5:
+                rep = r.choice(["external", "internal", "adjacent", "untagged"])
+                reps = {"external": {}, "internal": {"tag": "t"}, "adjacent": {"tag": "t", "content": "c"}, "untagged": {"untagged": True}}[rep]
+                as_attr = f"#[ts(as = {tsgen.rs_str(ft.rs())})]"
+                twin = self.mk("enum", variants=[Variant("Va", "newtype", [Field(None, ft)]), Variant("Vb", "unit")], **reps)
+                vas = self.mk("enum", variants=[Variant("Va", "newtype", [Field(None, prim("u8"))], extra_attrs=[as_attr]),
+                                                Variant("Vb", "unit")], **reps)
+                vas_struct = self.mk("enum", variants=[Variant("Va", "struct", [Field("x", prim("u8"))], extra_attrs=[as_attr]),
+                                                       Variant("Vb", "unit")], **reps)
+                members["variant-twin"] = twin
+                members["variant-as"] = vas
+                members["variant-as-struct"] = vas_struct
+                variant_rep = rep
+            else:
+                variant_rep = None
             # container-level `as`
             c = self.mk("named", fields=[Field("ignored", prim("bool"))])
             c.extra_attrs.append(f"#[ts(as = {tsgen.rs_str(ft.rs())})]")
@@ -101,7 +117,8 @@ class PresGen:
                 q = self.mk("named", fields=[Field("outer", prim("bool")), Field("g", Ty("user", item=members["flat"]), inline=True)])
                 members["inline-of-flat"] = q
             self.groups.append({"id": gid, "ftype": ft.rs(), "kind": kind, "shape": shape, "target": it.id,
-                                "target_tags": it.feature_tags(), "members": {k: v.id for k, v in members.items()}})
+                                "target_tags": it.feature_tags(), "members": {k: v.id for k, v in members.items()},
+                                "variant_rep": variant_rep})
         self.g.make_entries(per_generic=1)
         # the field type itself must be registered with the arguments the group uses
         return self.g
